@@ -316,8 +316,10 @@ def s_pad(ch, T):
     w = ch.choose("pad_width", widths)
     mode = ch.choose("mode", ["constant"])
     style = ch.choose("style", ["pos", "kw"])
-    expr = "np.pad(x, %r, %s%r)" % (w, "mode=" if style == "kw" else "", mode)
-    return Case("pad", expr, dict(x=x), dict(rank=nd, width_form=type(w).__name__, style=style), family="S")
+    cv = ch.choose("constant_values", [None, 2.5, (1.5, -0.5)])
+    extra = "" if cv is None else ", constant_values=%r" % (cv,)
+    expr = "np.pad(x, %r, %s%r%s)" % (w, "mode=" if style == "kw" else "", mode, extra)
+    return Case("pad", expr, dict(x=x), dict(rank=nd, width_form=type(w).__name__, style=style, constant_values=cv is not None), family="S")
 
 
 def _split(name):
